@@ -48,15 +48,84 @@ import (
 //go:embed baseline_funcs.txt
 var baselineFuncsTxt string
 
+// baselineSigs: funcKey → signature text (sigText) of the confirmed tree.
+var baselineSigs = map[string]string{}
+
+// baselineSpecs: funcKey → "recvName recvType|name type;name type;…" (paramSpec) of the confirmed tree.
+var baselineSpecs = map[string]string{}
+
+// paramSpec renders receiver and parameters with their names: "li *logInfo|ctx context.Context;req *http.Request".
+func paramSpec(fd *ast.FuncDecl) string {
+	typ := func(e ast.Expr) string {
+		var tb bytes.Buffer
+		format.Node(&tb, token.NewFileSet(), e)
+		return strings.Join(strings.Fields(tb.String()), " ")
+	}
+	recv := ""
+	if fd.Recv != nil && len(fd.Recv.List) == 1 {
+		n := "_"
+		if len(fd.Recv.List[0].Names) == 1 {
+			n = fd.Recv.List[0].Names[0].Name
+		}
+		recv = n + " " + typ(fd.Recv.List[0].Type)
+	}
+	var ps []string
+	if fd.Type.Params != nil {
+		for _, f := range fd.Type.Params.List {
+			if len(f.Names) == 0 {
+				ps = append(ps, "_ "+typ(f.Type))
+			}
+			for _, n := range f.Names {
+				ps = append(ps, n.Name+" "+typ(f.Type))
+			}
+		}
+	}
+	return recv + "|" + strings.Join(ps, ";")
+}
+
 var baselineFuncs = func() map[string]bool {
 	m := map[string]bool{}
 	for _, l := range strings.Split(baselineFuncsTxt, "\n") {
 		if l = strings.TrimSpace(l); l != "" && !strings.HasPrefix(l, "#") {
-			m[l] = true
+			k, rest, _ := strings.Cut(l, "\t")
+			sig, spec, _ := strings.Cut(rest, "\t")
+			m[k] = true
+			baselineSigs[k] = sig
+			baselineSpecs[k] = spec
 		}
 	}
 	return m
 }()
+
+// sigText renders parameter and result types of a declaration (names dropped).
+func sigText(fd *ast.FuncDecl) string {
+	var sb strings.Builder
+	list := func(fl *ast.FieldList) {
+		sb.WriteString("(")
+		if fl != nil {
+			first := true
+			for _, f := range fl.List {
+				n := len(f.Names)
+				if n == 0 {
+					n = 1
+				}
+				var tb bytes.Buffer
+				format.Node(&tb, token.NewFileSet(), f.Type)
+				for i := 0; i < n; i++ {
+					if !first {
+						sb.WriteString(",")
+					}
+					first = false
+					sb.WriteString(strings.Join(strings.Fields(tb.String()), " "))
+				}
+			}
+		}
+		sb.WriteString(")")
+	}
+	list(fd.Type.Params)
+	list(fd.Type.Results)
+	return sb.String()
+}
 
 // funcKey identifies a declared function independent of build configuration:
 // "<dir relative to the module root>:<receiver base type>.<name>".
@@ -123,17 +192,22 @@ func scanFuncs(root string, f func(relDir, file string, fd *ast.FuncDecl)) error
 // writeBaseline prints the baseline list of the tree at root.
 func writeBaseline(root string) string {
 	var keys []string
-	scanFuncs(root, func(rel, _ string, fd *ast.FuncDecl) { keys = append(keys, funcKey(rel, fd)) })
+	scanFuncs(root, func(rel, _ string, fd *ast.FuncDecl) {
+		keys = append(keys, funcKey(rel, fd)+"\t"+sigText(fd)+"\t"+paramSpec(fd))
+	})
 	sort.Strings(keys)
 	return "# functions of the tree the rule tables were confirmed against (ctverif baseline); one per line\n" + strings.Join(keys, "\n") + "\n"
 }
 
 // InlineNote describes what the normaliser did (recorded in the evidence).
 type InlineNote struct {
-	Helpers []string // unknown helpers found
-	Inlined []string // "<helper> into <caller>" expansions
-	Skipped []string // "<helper>: reason" / "<call site>: reason"
-	Removed []string // helper declarations dropped (no reference left)
+	Helpers  []string // unknown helpers found
+	Inlined  []string // "<helper> into <caller>" expansions
+	Skipped  []string // "<helper>: reason" / "<call site>: reason"
+	Removed  []string // helper declarations dropped (no reference left)
+	Renamed  []string // "<new key> → <confirmed key>": renames of unexported functions undone
+	Reshaped []string // signatures of unexported functions put back (parameter order, method ↔ function)
+	Modelled []string // library calls replaced by their defining loops (slices.Contains, builtin min, …)
 }
 
 // buildInlineOverlay returns the overlay (absolute file name → content) that
@@ -144,7 +218,10 @@ func buildInlineOverlay(root string, env []string) (map[string][]byte, *InlineNo
 	}
 	note := &InlineNote{}
 	overlay := map[string][]byte{}
-	inlineSeq = 0
+	inlineSeq, modelSeq = 0, 0
+	renameBack(root, env, overlay, note)
+	signatureBack(root, env, overlay, note)
+	modelLibrary(root, env, overlay, note)
 	for round := 0; round < 3; round++ {
 		dirs := map[string]bool{}
 		cands := map[string]bool{} // funcKey
@@ -205,12 +282,929 @@ func buildInlineOverlay(root string, env []string) (map[string][]byte, *InlineNo
 		}
 	}
 	if len(overlay) == 0 {
-		if len(note.Helpers) == 0 {
+		if len(note.Helpers) == 0 && len(note.Renamed) == 0 && len(note.Modelled) == 0 && len(note.Reshaped) == 0 {
 			return nil, nil
 		}
 		return nil, note
 	}
 	return overlay, note
+}
+
+// renameBack undoes renames of unexported functions: when, in one directory, a
+// function of the confirmed list is gone and an unknown unexported function
+// with the same receiver type and the same signature has appeared — and this
+// pairing is unique in both directions — the new name is changed back to the
+// confirmed one throughout the package (overlay only).  The rules then find
+// their anchor; a body that is not the old function's makes them fail as usual.
+func renameBack(root string, env []string, overlay map[string][]byte, note *InlineNote) {
+	type fnInfo struct{ key, recv, name, sig string }
+	present := map[string]bool{}
+	byDir := map[string][]fnInfo{}
+	scanFuncsOverlay(root, overlay, func(rel, file string, fd *ast.FuncDecl) {
+		k := funcKey(rel, fd)
+		present[k] = true
+		if !baselineFuncs[k] && !ast.IsExported(fd.Name.Name) && fd.Body != nil {
+			recv := strings.TrimSuffix(strings.SplitN(k, ":", 2)[1], "."+fd.Name.Name)
+			byDir[rel] = append(byDir[rel], fnInfo{k, recv, fd.Name.Name, sigText(fd)})
+		}
+	})
+	if len(byDir) == 0 {
+		return
+	}
+	missing := map[string][]fnInfo{}
+	for k := range baselineFuncs {
+		if present[k] {
+			continue
+		}
+		dir, rest, _ := strings.Cut(k, ":")
+		i := strings.LastIndex(rest, ".")
+		if i < 0 || ast.IsExported(rest[i+1:]) {
+			continue
+		}
+		missing[dir] = append(missing[dir], fnInfo{k, rest[:i], rest[i+1:], baselineSigs[k]})
+	}
+	type pair struct{ from, to fnInfo }
+	pairs := map[string][]pair{}
+	for dir, news := range byDir {
+		for _, n := range news {
+			var cands []fnInfo
+			for _, m := range missing[dir] {
+				if m.recv == n.recv && m.sig == n.sig && m.sig != "" {
+					cands = append(cands, m)
+				}
+			}
+			if len(cands) != 1 {
+				continue
+			}
+			back := 0
+			for _, n2 := range news {
+				if n2.recv == cands[0].recv && n2.sig == cands[0].sig {
+					back++
+				}
+			}
+			if back == 1 {
+				pairs[dir] = append(pairs[dir], pair{n, cands[0]})
+			}
+		}
+	}
+	if len(pairs) == 0 {
+		return
+	}
+	var pats []string
+	for d := range pairs {
+		pats = append(pats, "./"+d)
+	}
+	sort.Strings(pats)
+	cfg := &packages.Config{
+		Mode: packages.NeedName | packages.NeedFiles | packages.NeedCompiledGoFiles | packages.NeedImports |
+			packages.NeedTypes | packages.NeedSyntax | packages.NeedTypesInfo | packages.NeedTypesSizes,
+		Dir: root, Env: env, Tests: false, Overlay: overlay,
+	}
+	pkgs, err := packages.Load(cfg, pats...)
+	if err != nil {
+		return
+	}
+	for _, pk := range pkgs {
+		if len(pk.Errors) > 0 || pk.TypesInfo == nil {
+			continue
+		}
+		rel, _ := filepath.Rel(root, pkgDir(pk))
+		rel = filepath.ToSlash(rel)
+		for _, pr := range pairs[rel] {
+			var obj types.Object
+			for _, f := range pk.Syntax {
+				for _, d := range f.Decls {
+					if fd, ok := d.(*ast.FuncDecl); ok && funcKey(rel, fd) == pr.from.key {
+						obj = pk.TypesInfo.Defs[fd.Name]
+					}
+				}
+			}
+			if obj == nil {
+				continue
+			}
+			// the confirmed name must be free
+			if pr.to.recv == "" && pk.Types.Scope().Lookup(pr.to.name) != nil {
+				continue
+			}
+			changed := map[*ast.File]bool{}
+			for _, f := range pk.Syntax {
+				in := &inliner{pk: pk}
+				if in.fileUnsupported(f) {
+					continue
+				}
+				ast.Inspect(f, func(n ast.Node) bool {
+					if id, ok := n.(*ast.Ident); ok && (pk.TypesInfo.Uses[id] == obj || pk.TypesInfo.Defs[id] == obj) {
+						id.Name = pr.to.name
+						changed[f] = true
+					}
+					return true
+				})
+			}
+			for f := range changed {
+				var buf bytes.Buffer
+				if err := format.Node(&buf, pk.Fset, f); err == nil {
+					overlay[pk.Fset.File(f.Pos()).Name()] = buf.Bytes()
+				}
+			}
+			note.Renamed = append(note.Renamed, pr.from.key+" → "+pr.to.key)
+		}
+	}
+}
+
+// ---- signatures of confirmed functions put back ----------------------------------------------
+//
+// Three pure re-shapings of an unexported function of the confirmed list are
+// undone in the overlay, so that rule terms that name parameters by position
+// keep their meaning:
+//   - the parameters were permuted (same names and types, other order);
+//   - a method became a function whose first parameter is the old receiver;
+//   - a function became a method whose receiver is the old first parameter.
+// Call sites are rewritten accordingly; this requires every use to be a direct
+// call and, for a permutation, all arguments to be free of effects (their
+// evaluation order changes back).  Anything else is left alone.
+
+func signatureBack(root string, env []string, overlay map[string][]byte, note *InlineNote) {
+	type cur struct {
+		key, sig, spec, rel, name string
+	}
+	var cands []cur
+	present := map[string]cur{}
+	scanFuncsOverlay(root, overlay, func(rel, file string, fd *ast.FuncDecl) {
+		if fd.Body == nil || ast.IsExported(fd.Name.Name) {
+			return
+		}
+		c := cur{funcKey(rel, fd), sigText(fd), paramSpec(fd), rel, fd.Name.Name}
+		present[c.key] = c
+	})
+	type job struct {
+		kind string // "perm" | "toMethod" | "toFunc"
+		c    cur
+		base string // confirmed key
+		pos  int    // toMethod: which parameter is the receiver; toFunc: where the receiver goes
+	}
+	var jobs []job
+	for _, c := range present {
+		if baselineFuncs[c.key] {
+			if baselineSpecs[c.key] != c.spec && baselineSpecs[c.key] != "" && samePairs(baselineSpecs[c.key], c.spec) {
+				jobs = append(jobs, job{"perm", c, c.key, 0})
+			}
+			continue
+		}
+		cands = append(cands, c)
+	}
+	for _, c := range cands {
+		dir, rest, _ := strings.Cut(c.key, ":")
+		recvT, name := rest[:strings.LastIndex(rest, ".")], c.name
+		crecv, cparams, _ := strings.Cut(c.spec, "|")
+		dropAt := func(spec string, k int) (string, string) { // (type of k-th, types of the others)
+			ps := strings.Split(spec, ";")
+			if spec == "" || k >= len(ps) {
+				return "", ""
+			}
+			_, t, _ := strings.Cut(ps[k], " ")
+			rest := append(append([]string{}, ps[:k]...), ps[k+1:]...)
+			return t, typesOf(strings.Join(rest, ";"))
+		}
+		if recvT == "" {
+			// a function: was it a method of the type of one of its parameters?
+			n := len(strings.Split(cparams, ";"))
+			found := 0
+			var fj job
+			for k := 0; k < n && cparams != ""; k++ {
+				ft, others := dropAt(cparams, k)
+				bt := strings.TrimPrefix(ft, "*")
+				bk := dir + ":" + bt + "." + name
+				if bt == "" || !baselineFuncs[bk] || presentKey(present, bk) {
+					continue
+				}
+				brecv, bparams, _ := strings.Cut(baselineSpecs[bk], "|")
+				_, brt, _ := strings.Cut(brecv, " ")
+				if brt == ft && typesOf(bparams) == others && resultsOf(baselineSigs[bk]) == resultsOf(c.sig) {
+					found++
+					fj = job{"toMethod", c, bk, k}
+				}
+			}
+			if found == 1 {
+				jobs = append(jobs, fj)
+			}
+		} else {
+			// a method: was it a function with a parameter of the receiver's type?
+			bk := dir + ":." + name
+			if baselineFuncs[bk] && !presentKey(present, bk) {
+				_, bparams, _ := strings.Cut(baselineSpecs[bk], "|")
+				_, crt, _ := strings.Cut(crecv, " ")
+				n := len(strings.Split(bparams, ";"))
+				found := 0
+				var fj job
+				for k := 0; k < n && bparams != ""; k++ {
+					ft, others := dropAt(bparams, k)
+					if ft == crt && others == typesOf(cparams) && resultsOf(baselineSigs[bk]) == resultsOf(c.sig) {
+						found++
+						fj = job{"toFunc", c, bk, k}
+					}
+				}
+				if found == 1 {
+					jobs = append(jobs, fj)
+				}
+			}
+		}
+	}
+	if len(jobs) == 0 {
+		return
+	}
+	dirs := map[string]bool{}
+	for _, j := range jobs {
+		dirs[j.c.rel] = true
+	}
+	var pats []string
+	for d := range dirs {
+		pats = append(pats, "./"+d)
+	}
+	sort.Strings(pats)
+	cfg := &packages.Config{
+		Mode: packages.NeedName | packages.NeedFiles | packages.NeedCompiledGoFiles | packages.NeedImports |
+			packages.NeedTypes | packages.NeedSyntax | packages.NeedTypesInfo | packages.NeedTypesSizes,
+		Dir: root, Env: env, Tests: false, Overlay: overlay,
+	}
+	pkgs, err := packages.Load(cfg, pats...)
+	if err != nil {
+		return
+	}
+	for _, pk := range pkgs {
+		if len(pk.Errors) > 0 || pk.TypesInfo == nil {
+			continue
+		}
+		rel, _ := filepath.Rel(root, pkgDir(pk))
+		rel = filepath.ToSlash(rel)
+		in := &inliner{pk: pk, note: note, changed: map[*ast.File]bool{}}
+		for _, j := range jobs {
+			if j.c.rel != rel {
+				continue
+			}
+			if in.reshape(j.kind, j.c.key, j.base, rel, j.pos) {
+				note.Reshaped = append(note.Reshaped, j.kind+": "+j.c.key+" → "+j.base)
+			}
+		}
+		for f := range in.changed {
+			in.finishFile(f)
+			var buf bytes.Buffer
+			if err := format.Node(&buf, pk.Fset, f); err == nil {
+				overlay[pk.Fset.File(f.Pos()).Name()] = buf.Bytes()
+			}
+		}
+	}
+}
+
+func presentKey[T any](m map[string]T, k string) bool { _, ok := m[k]; return ok }
+
+// typesOf: "a T;b U" → "T;U".
+func typesOf(spec string) string {
+	if spec == "" {
+		return ""
+	}
+	var ts []string
+	for _, p := range strings.Split(spec, ";") {
+		_, t, _ := strings.Cut(p, " ")
+		ts = append(ts, t)
+	}
+	return strings.Join(ts, ";")
+}
+
+// resultsOf: "(params)(results)" → "(results)".
+func resultsOf(sig string) string {
+	depth := 0
+	for i, c := range sig {
+		switch c {
+		case '(':
+			depth++
+		case ')':
+			depth--
+			if depth == 0 {
+				return sig[i+1:]
+			}
+		}
+	}
+	return sig
+}
+
+// samePairs: both specs have the same receiver and the same set of distinct (name, type) parameters.
+func samePairs(a, b string) bool {
+	ra, pa, _ := strings.Cut(a, "|")
+	rb, pb, _ := strings.Cut(b, "|")
+	_, rta, _ := strings.Cut(ra, " ")
+	_, rtb, _ := strings.Cut(rb, " ")
+	if rta != rtb || pa == pb {
+		return false
+	}
+	sa, sb := strings.Split(pa, ";"), strings.Split(pb, ";")
+	if len(sa) != len(sb) {
+		return false
+	}
+	seen := map[string]int{}
+	for _, p := range sa {
+		if strings.HasPrefix(p, "_ ") {
+			return false
+		}
+		seen[p]++
+	}
+	for _, p := range sb {
+		seen[p]--
+	}
+	names := map[string]bool{}
+	for _, p := range sa {
+		n, _, _ := strings.Cut(p, " ")
+		if names[n] {
+			return false
+		}
+		names[n] = true
+	}
+	for _, v := range seen {
+		if v != 0 {
+			return false
+		}
+	}
+	return true
+}
+
+// reshape rewrites the declaration with key `from` and all its call sites.
+func (in *inliner) reshape(kind, from, base, rel string, pos int) bool {
+	info := in.info()
+	var decl *ast.FuncDecl
+	var dfile *ast.File
+	for _, f := range in.pk.Syntax {
+		for _, d := range f.Decls {
+			if fd, ok := d.(*ast.FuncDecl); ok && funcKey(rel, fd) == from {
+				decl, dfile = fd, f
+			}
+		}
+	}
+	if decl == nil || in.fileUnsupported(dfile) {
+		return false
+	}
+	obj, _ := info.Defs[decl.Name].(*types.Func)
+	if obj == nil {
+		return false
+	}
+	// every use must be the callee of a direct call
+	type site struct {
+		call *ast.CallExpr
+		file *ast.File
+	}
+	var sites []site
+	ok := true
+	for _, f := range in.pk.Syntax {
+		calls := map[*ast.Ident]*ast.CallExpr{}
+		ast.Inspect(f, func(n ast.Node) bool {
+			if c, isCall := n.(*ast.CallExpr); isCall {
+				switch fx := c.Fun.(type) {
+				case *ast.Ident:
+					calls[fx] = c
+				case *ast.SelectorExpr:
+					calls[fx.Sel] = c
+				}
+			}
+			return true
+		})
+		ast.Inspect(f, func(n ast.Node) bool {
+			id, isId := n.(*ast.Ident)
+			if !isId || info.Uses[id] != types.Object(obj) {
+				return true
+			}
+			c := calls[id]
+			if c == nil || in.fileUnsupported(f) || c.Ellipsis.IsValid() {
+				ok = false
+				return false
+			}
+			sites = append(sites, site{c, f})
+			return true
+		})
+	}
+	if !ok {
+		return false
+	}
+	// split grouped parameter fields into one field per name
+	var fields []*ast.Field
+	if decl.Type.Params != nil {
+		for _, f := range decl.Type.Params.List {
+			if len(f.Names) <= 1 {
+				fields = append(fields, f)
+				continue
+			}
+			for _, n := range f.Names {
+				fields = append(fields, &ast.Field{Names: []*ast.Ident{n}, Type: f.Type})
+			}
+		}
+	}
+	switch kind {
+	case "perm":
+		_, bparams, _ := strings.Cut(baselineSpecs[base], "|")
+		var order []int // position in the current list of the i-th confirmed parameter
+		for _, bp := range strings.Split(bparams, ";") {
+			bn, _, _ := strings.Cut(bp, " ")
+			found := -1
+			for i, f := range fields {
+				if len(f.Names) == 1 && f.Names[0].Name == bn {
+					found = i
+				}
+			}
+			if found < 0 {
+				return false
+			}
+			order = append(order, found)
+		}
+		if len(order) != len(fields) {
+			return false
+		}
+		for _, s := range sites {
+			if len(s.call.Args) != len(fields) {
+				return false
+			}
+			for _, a := range s.call.Args {
+				if !in.pure(a) {
+					return false
+				}
+			}
+		}
+		nf := make([]*ast.Field, len(fields))
+		for i, o := range order {
+			nf[i] = fields[o]
+		}
+		decl.Type.Params.List = nf
+		for _, s := range sites {
+			na := make([]ast.Expr, len(order))
+			for i, o := range order {
+				na[i] = s.call.Args[o]
+			}
+			s.call.Args = na
+			in.changed[s.file] = true
+		}
+	case "toMethod":
+		if pos >= len(fields) || len(fields[pos].Names) != 1 {
+			return false
+		}
+		for _, s := range sites {
+			if _, isId := s.call.Fun.(*ast.Ident); !isId || len(s.call.Args) != len(fields) {
+				return false
+			}
+			// the receiver is evaluated first again: arguments before it must be free of effects
+			for i := 0; i < pos; i++ {
+				if !in.pure(s.call.Args[i]) {
+					return false
+				}
+			}
+			if pos > 0 && !in.pure(s.call.Args[pos]) {
+				return false
+			}
+		}
+		decl.Recv = &ast.FieldList{List: []*ast.Field{fields[pos]}}
+		decl.Type.Params.List = append(append([]*ast.Field{}, fields[:pos]...), fields[pos+1:]...)
+		for _, s := range sites {
+			rx := s.call.Args[pos]
+			s.call.Fun = &ast.SelectorExpr{X: &ast.ParenExpr{X: rx}, Sel: ast.NewIdent(decl.Name.Name)}
+			if id, isId := unparen(rx).(*ast.Ident); isId {
+				s.call.Fun.(*ast.SelectorExpr).X = id
+			}
+			s.call.Args = append(append([]ast.Expr{}, s.call.Args[:pos]...), s.call.Args[pos+1:]...)
+			in.changed[s.file] = true
+		}
+	case "toFunc":
+		if decl.Recv == nil || len(decl.Recv.List) != 1 || len(decl.Recv.List[0].Names) != 1 {
+			return false
+		}
+		if in.pk.Types.Scope().Lookup(decl.Name.Name) != nil {
+			return false
+		}
+		_, recvPtr := obj.Type().(*types.Signature).Recv().Type().(*types.Pointer)
+		type fix struct {
+			s   site
+			arg ast.Expr
+		}
+		var fixes []fix
+		for _, s := range sites {
+			se, isSel := s.call.Fun.(*ast.SelectorExpr)
+			if !isSel {
+				return false
+			}
+			sel := info.Selections[se]
+			if sel == nil || sel.Kind() != types.MethodVal || len(sel.Index()) != 1 {
+				return false
+			}
+			_, havePtr := info.TypeOf(se.X).Underlying().(*types.Pointer)
+			var arg ast.Expr = se.X
+			switch {
+			case recvPtr && !havePtr:
+				arg = &ast.UnaryExpr{Op: token.AND, X: se.X}
+			case !recvPtr && havePtr:
+				arg = &ast.StarExpr{X: se.X}
+			}
+			fixes = append(fixes, fix{s, arg})
+		}
+		if pos > len(fields) {
+			return false
+		}
+		for _, fx := range fixes {
+			if pos > 0 {
+				if !in.pure(fx.arg) {
+					return false
+				}
+				for i := 0; i < pos && i < len(fx.s.call.Args); i++ {
+					if !in.pure(fx.s.call.Args[i]) {
+						return false
+					}
+				}
+			}
+		}
+		nl := append([]*ast.Field{}, fields[:pos]...)
+		nl = append(nl, decl.Recv.List[0])
+		nl = append(nl, fields[pos:]...)
+		decl.Type.Params.List = nl
+		decl.Recv = nil
+		for _, fx := range fixes {
+			fx.s.call.Fun = ast.NewIdent(decl.Name.Name)
+			na := append([]ast.Expr{}, fx.s.call.Args[:pos]...)
+			na = append(na, fx.arg)
+			na = append(na, fx.s.call.Args[pos:]...)
+			fx.s.call.Args = na
+			in.changed[fx.s.file] = true
+		}
+	default:
+		return false
+	}
+	in.changed[dfile] = true
+	return true
+}
+
+// ---- models of a few generic library functions ---------------------------------------------
+//
+// slices.Contains / ContainsFunc / Index / IndexFunc / Equal, maps.Copy and the
+// builtins min / max (two integer operands) are replaced by monomorphic
+// package-local helpers that spell out their documented definition (the loop,
+// the comparison); the helpers are unknown functions and are expanded in place
+// by the rounds that follow.  A hand-written loop and the library call thereby
+// reach the rules in the same shape.  The confirmed tree uses none of these
+// functions, so nothing changes for it.
+
+var modelNames = map[string]bool{"slices.Contains": true, "slices.ContainsFunc": true, "slices.Index": true, "slices.IndexFunc": true,
+	"slices.Equal": true, "maps.Copy": true, "min": true, "max": true}
+
+func modelLibrary(root string, env []string, overlay map[string][]byte, note *InlineNote) {
+	// cheap syntactic pre-filter
+	dirs := map[string]bool{}
+	fset := token.NewFileSet()
+	filepath.Walk(root, func(path string, fi os.FileInfo, err error) error {
+		if err != nil {
+			return nil
+		}
+		name := fi.Name()
+		if fi.IsDir() {
+			if path != root && (strings.HasPrefix(name, ".") || strings.HasPrefix(name, "_") || name == "testdata" || name == "vendor") {
+				return filepath.SkipDir
+			}
+			return nil
+		}
+		if !strings.HasSuffix(name, ".go") || strings.HasSuffix(name, "_test.go") {
+			return nil
+		}
+		var src interface{}
+		if b, ok := overlay[path]; ok {
+			src = b
+		} else if b, err := os.ReadFile(path); err == nil {
+			if !bytes.Contains(b, []byte("slices.")) && !bytes.Contains(b, []byte("maps.Copy")) && !bytes.Contains(b, []byte("min(")) && !bytes.Contains(b, []byte("max(")) {
+				return nil
+			}
+			src = b
+		}
+		af, perr := parser.ParseFile(fset, path, src, parser.SkipObjectResolution)
+		if perr != nil || af == nil {
+			return nil
+		}
+		hit := false
+		ast.Inspect(af, func(n ast.Node) bool {
+			if c, ok := n.(*ast.CallExpr); ok {
+				switch f := c.Fun.(type) {
+				case *ast.SelectorExpr:
+					if x, ok := f.X.(*ast.Ident); ok && modelNames[x.Name+"."+f.Sel.Name] {
+						hit = true
+					}
+				case *ast.Ident:
+					if modelNames[f.Name] && len(c.Args) == 2 {
+						hit = true
+					}
+				}
+			}
+			return !hit
+		})
+		if hit {
+			rel, _ := filepath.Rel(root, filepath.Dir(path))
+			dirs[filepath.ToSlash(rel)] = true
+		}
+		return nil
+	})
+	if len(dirs) == 0 {
+		return
+	}
+	var pats []string
+	for d := range dirs {
+		pats = append(pats, "./"+d)
+	}
+	sort.Strings(pats)
+	cfg := &packages.Config{
+		Mode: packages.NeedName | packages.NeedFiles | packages.NeedCompiledGoFiles | packages.NeedImports |
+			packages.NeedTypes | packages.NeedSyntax | packages.NeedTypesInfo | packages.NeedTypesSizes,
+		Dir: root, Env: env, Tests: false, Overlay: overlay,
+	}
+	pkgs, err := packages.Load(cfg, pats...)
+	if err != nil {
+		return
+	}
+	for _, pk := range pkgs {
+		if len(pk.Errors) > 0 || pk.TypesInfo == nil {
+			continue
+		}
+		in := &inliner{pk: pk, note: note, changed: map[*ast.File]bool{}}
+		for _, f := range pk.Syntax {
+			if in.fileUnsupported(f) {
+				continue
+			}
+			var extra []string
+			astutil.Apply(f, func(c *astutil.Cursor) bool {
+				call, ok := c.Node().(*ast.CallExpr)
+				if !ok {
+					return true
+				}
+				orig := exprText(call.Fun)
+				name, src := in.modelFor(call, f)
+				if name == "" {
+					return true
+				}
+				extra = append(extra, src)
+				note.Modelled = append(note.Modelled, orig+" in "+filepath.Base(pk.Fset.File(f.Pos()).Name())+" as "+name)
+				return true
+			}, nil)
+			if len(extra) == 0 {
+				continue
+			}
+			in.finishFileOnly(f, map[string]bool{"slices": true, "maps": true})
+			var buf bytes.Buffer
+			if err := format.Node(&buf, pk.Fset, f); err != nil {
+				continue
+			}
+			for _, e := range extra {
+				buf.WriteString("\n" + e + "\n")
+			}
+			if out, err := format.Source(buf.Bytes()); err == nil {
+				overlay[pk.Fset.File(f.Pos()).Name()] = out
+			}
+		}
+	}
+}
+
+func exprTextNode(n ast.Node) string {
+	var b bytes.Buffer
+	format.Node(&b, token.NewFileSet(), n)
+	return b.String()
+}
+
+func exprText(e ast.Expr) string {
+	var b bytes.Buffer
+	format.Node(&b, token.NewFileSet(), e)
+	return b.String()
+}
+
+var modelSeq int
+
+// modelFor rewrites one call in place (its Fun and, for literal predicates,
+// its arguments) and returns the helper's name and source; "" when the call is
+// not a modelled one or cannot be expressed.
+func (in *inliner) modelFor(call *ast.CallExpr, file *ast.File) (string, string) {
+	info := in.info()
+	qual := in.qualifierAt(call.Pos())
+	tstr := func(t types.Type) string {
+		bad := false
+		s := types.TypeString(t, func(p *types.Package) string {
+			n, ok := qual(p)
+			if !ok {
+				bad = true
+			}
+			return n
+		})
+		if bad {
+			return ""
+		}
+		return s
+	}
+	what := ""
+	switch f := call.Fun.(type) {
+	case *ast.Ident:
+		if b, ok := info.Uses[f].(*types.Builtin); ok && (b.Name() == "min" || b.Name() == "max") && len(call.Args) == 2 {
+			what = b.Name()
+		}
+	case *ast.SelectorExpr:
+		if fn, ok := info.Uses[f.Sel].(*types.Func); ok && fn.Pkg() != nil && (fn.Pkg().Path() == "slices" || fn.Pkg().Path() == "maps") {
+			if modelNames[fn.Pkg().Path()+"."+fn.Name()] {
+				what = fn.Pkg().Path() + "." + fn.Name()
+			}
+		}
+	}
+	if what == "" || call.Ellipsis.IsValid() {
+		return "", ""
+	}
+	argT := func(i int) types.Type {
+		if tv, ok := info.Types[call.Args[i]]; ok {
+			return tv.Type
+		}
+		return nil
+	}
+	modelSeq++
+	name := fmt.Sprintf("mdl%d_%s", modelSeq, strings.NewReplacer(".", "_").Replace(what))
+	switch what {
+	case "min", "max":
+		rt := info.TypeOf(call)
+		b, ok := rt.Underlying().(*types.Basic)
+		if !ok || b.Info()&types.IsInteger == 0 {
+			return "", ""
+		}
+		ts := tstr(rt)
+		if ts == "" {
+			return "", ""
+		}
+		op := "<"
+		if what == "max" {
+			op = ">"
+		}
+		call.Fun = ast.NewIdent(name)
+		return name, fmt.Sprintf("func %s(a, b %s) %s {\n\tif b %s a {\n\t\treturn b\n\t}\n\treturn a\n}", name, ts, ts, op)
+	case "slices.Contains", "slices.Index":
+		if len(call.Args) != 2 || argT(0) == nil {
+			return "", ""
+		}
+		st, ok := argT(0).Underlying().(*types.Slice)
+		if !ok {
+			return "", ""
+		}
+		ss, es := tstr(argT(0)), tstr(st.Elem())
+		if ss == "" || es == "" {
+			return "", ""
+		}
+		call.Fun = ast.NewIdent(name)
+		if what == "slices.Contains" {
+			return name, fmt.Sprintf("func %s(s %s, v %s) bool {\n\tfor _, e := range s {\n\t\tif e == v {\n\t\t\treturn true\n\t\t}\n\t}\n\treturn false\n}", name, ss, es)
+		}
+		return name, fmt.Sprintf("func %s(s %s, v %s) int {\n\tfor i, e := range s {\n\t\tif e == v {\n\t\t\treturn i\n\t\t}\n\t}\n\treturn -1\n}", name, ss, es)
+	case "slices.Equal":
+		if len(call.Args) != 2 || argT(0) == nil || argT(1) == nil {
+			return "", ""
+		}
+		s1, s2 := tstr(argT(0)), tstr(argT(1))
+		if s1 == "" || s2 == "" {
+			return "", ""
+		}
+		call.Fun = ast.NewIdent(name)
+		return name, fmt.Sprintf("func %s(a %s, b %s) bool {\n\tif len(a) != len(b) {\n\t\treturn false\n\t}\n\tfor i := 0; i < len(a); i++ {\n\t\tif a[i] != b[i] {\n\t\t\treturn false\n\t\t}\n\t}\n\treturn true\n}", name, s1, s2)
+	case "maps.Copy":
+		if len(call.Args) != 2 || argT(0) == nil || argT(1) == nil {
+			return "", ""
+		}
+		s1, s2 := tstr(argT(0)), tstr(argT(1))
+		if s1 == "" || s2 == "" {
+			return "", ""
+		}
+		call.Fun = ast.NewIdent(name)
+		return name, fmt.Sprintf("func %s(dst %s, src %s) {\n\tfor k, v := range src {\n\t\tdst[k] = v\n\t}\n}", name, s1, s2)
+	case "slices.ContainsFunc", "slices.IndexFunc":
+		if len(call.Args) != 2 || argT(0) == nil {
+			return "", ""
+		}
+		st, ok := argT(0).Underlying().(*types.Slice)
+		ss := tstr(argT(0))
+		if !ok || ss == "" {
+			return "", ""
+		}
+		res, hit, miss := "bool", "true", "false"
+		if what == "slices.IndexFunc" {
+			res, hit, miss = "int", "i", "-1"
+		}
+		lit, isLit := unparen(call.Args[1]).(*ast.FuncLit)
+		if id, isId := unparen(call.Args[1]).(*ast.Ident); isId && !isLit {
+			// a predicate held in a local that is defined once by a function literal
+			if obj, ok := info.Uses[id].(*types.Var); ok {
+				defs, writes := 0, 0
+				ast.Inspect(file, func(n ast.Node) bool {
+					switch x := n.(type) {
+					case *ast.AssignStmt:
+						for i, l := range x.Lhs {
+							li, ok := unparen(l).(*ast.Ident)
+							if !ok || (info.Defs[li] != types.Object(obj) && info.Uses[li] != types.Object(obj)) {
+								continue
+							}
+							writes++
+							if x.Tok == token.DEFINE && len(x.Rhs) == len(x.Lhs) {
+								if fl, ok := unparen(x.Rhs[i]).(*ast.FuncLit); ok {
+									lit, defs = fl, defs+1
+								}
+							}
+						}
+					case *ast.UnaryExpr:
+						if li, ok := unparen(x.X).(*ast.Ident); ok && x.Op == token.AND && info.Uses[li] == types.Object(obj) {
+							writes += 2
+						}
+					}
+					return true
+				})
+				isLit = defs == 1 && writes == 1
+			}
+		}
+		if isLit && lit.Type.Params != nil && len(lit.Type.Params.List) == 1 && len(lit.Type.Params.List[0].Names) == 1 {
+			pname := lit.Type.Params.List[0].Names[0].Name
+			// variables of the enclosing function used by the predicate become parameters of a
+			// generated predicate function; they must only be read
+			var capNames, capDecl []string
+			seen := map[types.Object]bool{}
+			okCap := true
+			captured := func(id *ast.Ident) *types.Var {
+				v, ok := info.Uses[id].(*types.Var)
+				if !ok || v.IsField() || v.Parent() == in.pk.Types.Scope() || v.Parent() == nil {
+					return nil
+				}
+				if v.Pos() >= lit.Pos() && v.Pos() <= lit.End() {
+					return nil // declared inside the literal
+				}
+				return v
+			}
+			ast.Inspect(lit.Body, func(n ast.Node) bool {
+				switch x := n.(type) {
+				case *ast.FuncLit, *ast.DeferStmt, *ast.GoStmt:
+					okCap = false
+				case *ast.AssignStmt:
+					for _, l := range x.Lhs {
+						if id, ok := unparen(l).(*ast.Ident); ok && captured(id) != nil {
+							okCap = false
+						}
+					}
+				case *ast.IncDecStmt:
+					if id, ok := unparen(x.X).(*ast.Ident); ok && captured(id) != nil {
+						okCap = false
+					}
+				case *ast.UnaryExpr:
+					if id, ok := unparen(x.X).(*ast.Ident); ok && x.Op == token.AND && captured(id) != nil {
+						okCap = false
+					}
+				case *ast.Ident:
+					v := captured(x)
+					if v == nil || seen[v] {
+						return true
+					}
+					seen[v] = true
+					ts := tstr(v.Type())
+					if ts == "" || x.Name == pname {
+						okCap = false
+					}
+					capNames = append(capNames, x.Name)
+					capDecl = append(capDecl, x.Name+" "+ts)
+				}
+				return okCap
+			})
+			es := tstr(st.Elem())
+			if okCap && pname != "_" && es != "" {
+				pred := name + "_pred"
+				predSrc := fmt.Sprintf("func %s(%s) bool %s", pred, strings.Join(append([]string{pname + " " + es}, capDecl...), ", "), exprTextNode(lit.Body))
+				params := append([]string{"s " + ss}, capDecl...)
+				_, fromLocal := unparen(call.Args[1]).(*ast.Ident)
+				if fromLocal {
+					// the local holding the predicate stays used
+					fs := tstr(argT(1))
+					if fs == "" {
+						return "", ""
+					}
+					params = append(params, "_ "+fs)
+				}
+				predArgs := strings.Join(append([]string{"mdl_e"}, capNames...), ", ")
+				for _, cn := range capNames {
+					if cn == "s" || cn == "mdl_e" || cn == "mdl_i" {
+						return "", ""
+					}
+				}
+				call.Fun = ast.NewIdent(name)
+				args := []ast.Expr{call.Args[0]}
+				for _, cn := range capNames {
+					args = append(args, ast.NewIdent(cn))
+				}
+				if fromLocal {
+					args = append(args, call.Args[1])
+				}
+				call.Args = args
+				return name, fmt.Sprintf("func %s(%s) %s {\n\tfor mdl_i, mdl_e := range s {\n\t\t_ = mdl_i\n\t\tif %s(%s) {\n\t\t\treturn %s\n\t\t}\n\t}\n\treturn %s\n}\n\n%s",
+					name, strings.Join(params, ", "), res, pred, predArgs, strings.Replace(hit, "i", "mdl_i", 1), miss, predSrc)
+			}
+		}
+		fs := tstr(argT(1))
+		if fs == "" {
+			return "", ""
+		}
+		call.Fun = ast.NewIdent(name)
+		return name, fmt.Sprintf("func %s(s %s, f %s) %s {\n\tfor i, e := range s {\n\t\t_ = i\n\t\tif f(e) {\n\t\t\treturn %s\n\t\t}\n\t}\n\treturn %s\n}", name, ss, fs, res, hit, miss)
+	}
+	return "", ""
 }
 
 func pkgDir(pk *packages.Package) string {
@@ -275,6 +1269,8 @@ type inliner struct {
 	curFile       *ast.File
 	curFn         string
 	inPlace       *types.Var // set around one expansion: this parameter is updated in place (x = f(…, E, …))
+	tailNot       bool       // … and each returned value is negated (return !f(…))
+	tail          bool       // set around one expansion: return f(…) — the body's returns become the caller's
 	inPlaceName   string
 	inPlaceDefine bool
 	inPlaceIdx    int
@@ -390,7 +1386,10 @@ func (in *inliner) fileUnsupported(f *ast.File) bool {
 
 // finishFile drops comments after the package clause (they are positioned by
 // offsets that no longer exist) and imports that became unused.
-func (in *inliner) finishFile(f *ast.File) {
+func (in *inliner) finishFile(f *ast.File) { in.finishFileOnly(f, nil) }
+
+// finishFileOnly: as finishFile, but when only is non-nil, just the imports named in it are pruned.
+func (in *inliner) finishFileOnly(f *ast.File, only map[string]bool) {
 	var keep []*ast.CommentGroup
 	for _, cg := range f.Comments {
 		if cg.End() < f.Package {
@@ -438,7 +1437,7 @@ func (in *inliner) finishFile(f *ast.File) {
 			} else if pn := in.importedName(is); pn != "" {
 				name = pn
 			}
-			if name == "_" || name == "." || name == "" || used[name] {
+			if name == "_" || name == "." || name == "" || used[name] || (only != nil && !only[name]) {
 				specs = append(specs, s)
 			}
 		}
@@ -1294,14 +2293,27 @@ func (in *inliner) expandIn(s ast.Stmt) ([]ast.Stmt, ast.Stmt, bool) {
 	if whole {
 		in.inPlace = in.inPlaceParam(h, call, s)
 	}
+	rs, isRet := s.(*ast.ReturnStmt)
+	in.tail, in.tailNot = isRet && whole && nres > 0, false
+	if isRet && !whole && nres == 1 && len(rs.Results) == 1 {
+		if u, ok := unparen(rs.Results[0]).(*ast.UnaryExpr); ok && u.Op == token.NOT && unparen(u.X) == ast.Expr(call) {
+			in.tail, in.tailNot = true, true // return !f(…)
+		}
+	}
 	exp, why := in.expand(h, call)
 	updated := in.inPlace != nil
-	in.inPlace = nil
+	tail := in.tail
+	in.inPlace, in.tail, in.tailNot = nil, false, false
 	if exp == nil {
 		in.note.Skipped = append(in.note.Skipped, site+": "+why)
 		return nil, s, false
 	}
 	in.note.Inlined = append(in.note.Inlined, h.key+" into "+in.rel+":"+in.curFn)
+	if tail {
+		// return f(…): every return of the body is a return of the caller
+		in.changed[in.curFile] = true
+		return exp.stmts, nil, true
+	}
 	if updated {
 		// x = f(…, E, …) where f returns its (modified) parameter: the body ran on x itself
 		in.changed[in.curFile] = true
@@ -1702,6 +2714,24 @@ func (in *inliner) expandWith(h *helper, call *ast.CallExpr, thr *threadCtl) (*e
 					brk = jump(thr.skip)
 				}
 			}
+			if in.tail && thr == nil {
+				if len(x.Results) == 0 && allNamed {
+					for _, rv := range named {
+						x.Results = append(x.Results, ast.NewIdent(rename[rv]))
+					}
+				}
+				if in.tailNot && len(x.Results) == 1 {
+					switch id, _ := unparen(x.Results[0]).(*ast.Ident); {
+					case id != nil && id.Name == "true":
+						x.Results[0] = ast.NewIdent("false")
+					case id != nil && id.Name == "false":
+						x.Results[0] = ast.NewIdent("true")
+					default:
+						x.Results[0] = &ast.UnaryExpr{Op: token.NOT, X: &ast.ParenExpr{X: x.Results[0]}}
+					}
+				}
+				return false // stays a return, now of the caller
+			}
 			var copyOut ast.Stmt
 			if len(x.Results) == 0 && allNamed {
 				var lhs, rhs []ast.Expr
@@ -1757,6 +2787,12 @@ func (in *inliner) expandWith(h *helper, call *ast.CallExpr, thr *threadCtl) (*e
 		inner = append(inner, body.List...)
 		out = append(out, &ast.BlockStmt{List: inner})
 		exp.stmts = out
+		return exp, ""
+	}
+	if in.tail && thr == nil {
+		inner = append(inner, body.List...)
+		exp.decls = nil
+		exp.stmts = []ast.Stmt{&ast.BlockStmt{List: inner}}
 		return exp, ""
 	}
 	if straight {
